@@ -83,6 +83,10 @@ func runSeq(w *world, cfgName string, cfg core.TxPoolConfig, start string, seq [
 				if post.has(old.Hash()) && post.has(tx.Hash()) {
 					r.fails = append(r.fails, fmt.Sprintf("op %d %s: replacement accepted but the replaced transaction is still pooled", oi, sy.Arg))
 				}
+				// an accepted replacement is what the pool serves for that sender and nonce from now on
+				if cur := post.find(from, tx.Nonce()); cur != nil && cur.Hash() == old.Hash() {
+					r.fails = append(r.fails, fmt.Sprintf("op %d %s: replacement accepted but Content() still serves the replaced transaction (price %v) for nonce %d", oi, sy.Arg, old.GasPrice(), tx.Nonce()))
+				}
 			}
 			if err != nil && old != nil && old.Hash() != tx.Hash() && bumpOK(old, tx, cfg.PriceBump) && strings.Contains(err.Error(), "replacement transaction underpriced") {
 				r.fails = append(r.fails, fmt.Sprintf("op %d %s: replacement with a sufficient price bump refused as underpriced", oi, sy.Arg))
